@@ -1066,7 +1066,21 @@ def check_strings(ctx):
 
 
 # ------------------------------------------------------------------------------------ entry points
+def check_corpus(ctx):
+    """stored failing inputs (the findings reproduced so far) are evaluated first, with the direct oracle"""
+    import glob, json
+    from .common.guard import VERIF
+    for f in sorted(glob.glob(os.path.join(VERIF, "corpus", "C15", "*.json"))):
+        with open(f) as fh:
+            case = json.load(fh).get("case")
+        if case:
+            ctx.case(("corpus", os.path.basename(f)), nontrivial=True)
+            ctx.hit("corpus")
+            replay(ctx, case)
+
+
 def check(ctx):
+    check_corpus(ctx)
     check_http_range(ctx)
     check_strings(ctx)
     check_files(ctx)
